@@ -2,7 +2,7 @@ import CifModel.Lemmas.LexDefectMulti
 import CifModel.Props.C12Scan
 /-
   Props/C12ScanMulti (group gW) — scanner level: SEVERAL defective places in one token, and an unpaired LEAD surrogate ANYWHERE
-  (not only in front of a closing quote), for data names, comments and quoted strings (CIF 2.0).
+  (not only in front of a closing quote), for data names, comments, whitespace-delimited values and quoted strings (CIF 2.0).
 
   A token body is `s₀ e₁ s₁ … eₙ sₙ` (`Body`, Lemmas/LexDefectMulti): admissible runs `sᵢ` and events `eᵢ` between them — `Ev.of1`:
   one defective unit (`Defect1`: `C12_disallowed_char`, `C12_invalid_char_trail`), `Ev.lead l x`: an unpaired lead surrogate followed
@@ -87,6 +87,41 @@ theorem C12_invalid_char_lead_anywhere (l x : Nat) (hl : isLeadU l = true) (hx :
     have := (C12_several_defects_name .cif2 [(s1, Ev.lead l x)] s2 ctx line col lt log haw
       (by intro p hp; simp only [List.mem_singleton] at hp; subst hp; exact ⟨h1, EvToWs.lead l x hl hx hxw line⟩) h2 hctx).1
     simpa [Body.inp, Body.out, Body.col, Body.reps, Ev.lead] using this
+
+/-- **C12_several_defects_bare** — a whitespace-delimited value with any number of defective places (first unit `f`: one that starts
+    an unquoted token at this column; the repaired text is not a reserved word; CIF 2.0: no brackets in the admissible runs) -/
+theorem C12_several_defects_bare (dia : Dialect) (body : Body) (sN ctx : Str) (f : Nat) (r : Str) (line col : Nat) (lt : TokType)
+    (log : List Report) (haw : afterWsOf lt = true)
+    (hb : ∀ p ∈ body, (nonBlankOk dia p.1 = true ∧
+        (dia = .cif2 → p.1.all (fun x => !(x == 91 || x == 93 || x == 123 || x == 125)) = true)) ∧ EvUnq dia line p.2)
+    (hN : nonBlankOk dia sN = true) (hNb : dia = .cif2 → sN.all (fun x => !(x == 91 || x == 93 || x == 123 || x == 125)) = true)
+    (hin : body.inp ++ (sN ++ ctx) = f :: r) (hstart : bareStart dia f col = true)
+    (hres : isReservedWord (body.out ++ sN) = false) (hctx : wsOrEnd ctx = true) :
+    nextToken dia ⟨f :: r, line, col, lt⟩ acceptAll log
+        = .ok (⟨.value, body.out ++ sN, line, body.col col + colAdd sN⟩, ⟨ctx, line, body.col col + colAdd sN, .value⟩)
+            (body.reps line col ++ log)
+    ∧ (∀ d rp, body.reps line col = d ++ [rp] →
+        nextToken dia ⟨f :: r, line, col, lt⟩ dieAll log = .abort rp.code (rp :: log)) := by
+  have hs := multi_bare (dia := dia) body sN ctx f r line col log hb hN hNb hin hstart hres hctx
+  refine ⟨stepTok_tok_nextToken (by rw [haw]; exact hs), fun d rp hr => ?_⟩
+  rw [hr] at hs
+  rw [nextToken_cons, haw, die_step hs]
+
+/-- … in particular ONE unpaired lead surrogate in the middle of a whitespace-delimited value (CIF 2.0): `s₁ l x s₂` -/
+theorem C12_invalid_char_lead_bare (l x : Nat) (hl : isLeadU l = true) (hx : plainUnit x)
+    (hg : metaOfCls (classOf .cif2 x) = .general) (f : Nat) (s1 s2 ctx : Str) (line col : Nat) (lt : TokType) (log : List Report)
+    (haw : afterWsOf lt = true) (h1 : nonBlankOk .cif2 (f :: s1) = true) (h2 : nonBlankOk .cif2 s2 = true)
+    (hb1 : (f :: s1).all (fun y => !(y == 91 || y == 93 || y == 123 || y == 125)) = true)
+    (hb2 : s2.all (fun y => !(y == 91 || y == 93 || y == 123 || y == 125)) = true)
+    (hstart : bareStart .cif2 f col = true) (hres : isReservedWord ((f :: s1) ++ 0xFFFD :: x :: s2) = false) (hctx : wsOrEnd ctx = true) :
+    nextToken .cif2 ⟨f :: (s1 ++ l :: x :: (s2 ++ ctx)), line, col, lt⟩ acceptAll log
+      = .ok (⟨.value, (f :: s1) ++ 0xFFFD :: x :: s2, line, col + colAdd (f :: s1) + 2 + colAdd s2⟩,
+             ⟨ctx, line, col + colAdd (f :: s1) + 2 + colAdd s2, .value⟩)
+          (⟨CIF_INVALID_CHAR, line, col + colAdd (f :: s1) + 2⟩ :: log) := by
+  have := (C12_several_defects_bare .cif2 [(f :: s1, Ev.lead l x)] s2 ctx f (s1 ++ l :: x :: (s2 ++ ctx)) line col lt log haw
+    (by intro p hp; simp only [List.mem_singleton] at hp; subst hp; exact ⟨⟨h1, fun _ => hb1⟩, EvUnq.lead l x hl hx hg line⟩)
+    h2 (fun _ => hb2) (by simp [Body.inp, Ev.lead]) hstart (by simpa [Body.out, Ev.lead] using hres) hctx).1
+  simpa [Body.inp, Body.out, Body.col, Body.reps, Ev.lead] using this
 
 /-- non-vacuity: the events exist — U+0001 (disallowed), U+DC00 (unpaired trail), U+D800 followed by `c` (unpaired lead) — so
     `'a\x01b\uDC00c\uD800cd'` is a body with three defective places -/
